@@ -91,6 +91,15 @@ func (x *Exec) libraryModel(st *State, call *ast.CallExpr, c *callee, recv *T, a
 	case "sync.RWMutex.RUnlock":
 		x.lockOp(st, call, "r", false)
 		return T{}, true
+	case "sync/atomic.AddUint64", "sync/atomic.AddUint32", "sync/atomic.AddInt64", "sync/atomic.AddInt32":
+		// atomic.AddT(&lvalue, d): one indivisible read-modify-write of the addressed variable
+		if u, ok := ast.Unparen(call.Args[0]).(*ast.UnaryExpr); ok && u.Op == token.AND {
+			x.trust("sync/atomic.Add* is an indivisible read-modify-write returning the new value")
+			cur := x.eval(st, u.X)
+			nv := x.arith(st, token.ADD, cur, args[1], cur.Ty, call)
+			x.assign(st, u.X, nv)
+			return T{S: nv.S, Ty: rt(0)}, true
+		}
 	case "sync.WaitGroup.Add", "sync.WaitGroup.Done", "sync.WaitGroup.Wait", "time.Sleep", "runtime.Gosched":
 		x.trust("blocking/time primitives (WaitGroup, Sleep) are no-ops: no liveness or timing claim")
 		return T{}, true
